@@ -77,12 +77,12 @@ def arglist(min_size=0, max_size=4, pool=None):
     return st.lists(st.one_of(ident(), single(pool)), min_size=min_size, max_size=max_size)
 
 
-def group_args(depth=2, max_size=4):
+def group_args(depth=2, max_size=4, pool=None):
     """Arguments with parenthesised groups."""
-    base = st.one_of(ident(), single())
+    base = st.one_of(ident(), single(pool))
     if depth <= 0:
         return st.lists(base, max_size=max_size)
-    return st.lists(weighted((3, base), (1, st.deferred(lambda: group_args(depth - 1, 3)))), max_size=max_size)
+    return st.lists(weighted((3, base), (1, st.deferred(lambda: group_args(depth - 1, 3, pool)))), max_size=max_size)
 
 
 # ------------------------------------------------------------------ doc text profiles
@@ -110,7 +110,8 @@ def maybe(strategy, p_none=0.5):
 class Profile:
     def __init__(self, doc=None, p_doc_mostly=False, max_items=8, depth=3, kinds=None, body_max=4,
                  dangling=True, classes=True, tests=True, groups=True, moddoc=True, parseargs=True,
-                 moddoc_indent=None, set_values=None, option_help=None, weights=None):
+                 moddoc_indent=None, set_values=None, option_help=None, weights=None, generic_cmds=None,
+                 arg_pool=None, group_depth=2, max_args=4):
         self.doc = doc if doc is not None else benign_doc()
         self.p_doc_mostly = p_doc_mostly
         self.max_items = max_items
@@ -127,6 +128,10 @@ class Profile:
         self.set_values = set_values
         self.option_help = option_help
         self.weights = weights or {}
+        self.generic_cmds = generic_cmds
+        self.arg_pool = arg_pool
+        self.group_depth = group_depth
+        self.max_args = max_args
 
     def mdoc(self):
         return maybe(self.doc, 0.2 if self.p_doc_mostly else 0.5)
@@ -168,8 +173,9 @@ def item(p, depth, ctx):
                                            "default": maybe(st.sampled_from(["ON", "OFF", "${dflt@}", '"ON"', "TRUE"])),
                                            "doc": p.mdoc()}))
     if want("generic"):
-        alts.append(st.fixed_dictionaries({"k": st.just("generic"), "cmd": st.sampled_from(GENERIC_CMDS),
-                                           "args": group_args(2 if p.groups else 0), "doc": p.mdoc()}))
+        alts.append(st.fixed_dictionaries({"k": st.just("generic"), "cmd": st.sampled_from(p.generic_cmds or GENERIC_CMDS),
+                                           "args": group_args(p.group_depth if p.groups else 0, p.max_args, p.arg_pool),
+                                           "doc": p.mdoc()}))
     if want("block") and sub:
         alts.append(st.fixed_dictionaries({"k": st.just("block"), "open": st.sampled_from(sorted(BLOCKS)),
                                            "args": group_args(1 if p.groups else 0).filter(lambda a: len(a) > 0),
